@@ -88,7 +88,7 @@ def job_ast(item):
         return ER.same(ex, got.fields[0].v, want)
     def model_of(ex):
         acc = []; SY.lazy_null_constraints(ex.doc, acc); SA.pin_constraints(ex.u_ast, acc)
-        sat, m = eng.check(ex.pc + acc)
+        sat, m = SY.check_pinned(eng, ex.pc, acc)
         if not sat: return None, None, None
         return SA.ast_json(ex, prog, ex.u_ast, m), SY.tagged(ex, ex.doc, m), m
     def on_path(ex, r):
@@ -149,7 +149,7 @@ def job_pipe(item):
         if r[0] in ('abort',): return
         if r[0] == 'unsupported': S.inconclusive(f'pipe {whole!r}: ' + XP.short_unsupported(r[1])); return
         acc = []; SY.lazy_null_constraints(ex.doc, acc)
-        sat, m = eng.check(ex.pc + acc)
+        sat, m = SY.check_pinned(eng, ex.pc, acc)
         if not sat: return
         d = SY.tagged(ex, ex.doc, m)
         if r[0] == 'panic': S.cand('search-panic', f'search panics: {r[1]}', {'expr': whole, 'doc': d}, {'op': 'search', 'expr': whole, 'doc': d}, expected='no panic'); return
